@@ -3,15 +3,17 @@ counted in evidence (class 'excluded:<name>').  The pinned replay of each findin
 import copy
 
 
-def _has_preemption(nd):
-    s = nd["servers"]
-    return bool(nd.get("prio_preempt")) or bool(s.get("preemption"))
+def _has_sched_preemption(nd):
+    return bool(nd["servers"].get("preemption"))
 
 
-def x_preempt_blocked(spec):
-    """F6: pre-empting (by priority, shift end or capacitated slot) a customer that is blocked.  Excluded by removing
-    finite capacities from networks that contain a pre-empting node."""
-    if any(_has_preemption(nd) for nd in spec["nodes"]) and any(nd.get("cap", "inf") != "inf" for nd in spec["nodes"]):
+def x_sched_preempt_blocked(spec):
+    """F6c: a pre-emptive shift end (or capacitated pre-emptive slot) interrupting a customer that is *blocked*: with 'resume' its
+    remaining time is negative (service end in the past), the restored end date can exceed the exit date, number_in_service is
+    decremented twice and the blocking trackers are not told that the customer was un-blocked.  Excluded by removing finite
+    capacities from networks that contain a node with a pre-emptive schedule / slots.  (Pre-emptive *priorities* no longer need
+    this: fixed, F6a/b.)"""
+    if any(_has_sched_preemption(nd) for nd in spec["nodes"]) and any(nd.get("cap", "inf") != "inf" for nd in spec["nodes"]):
         for nd in spec["nodes"]:
             nd["cap"] = "inf"
         return True
@@ -203,6 +205,12 @@ def p_nondyadic_timetable(case, v):
     return False
 
 
+def p_sched_preempt_blocked(case, v):
+    """F6c applies only to networks with a pre-emptive schedule / slots and some finite queue capacity."""
+    import copy
+    return x_sched_preempt_blocked(copy.deepcopy(case)) if isinstance(case, dict) and "nodes" in case else False
+
+
 EXCLUSIONS = {
     "reuse_stateful": x_reuse_stateful,
     "pause_busy_time_priority": x_pause_busy_time_priority,
@@ -212,7 +220,7 @@ EXCLUSIONS = {
     "jockey_capacity": x_jockey_capacity,
     "preempt_renege": x_preempt_renege,
     "exact_low_precision": x_exact_low_precision,
-    "preempt_blocked": x_preempt_blocked,
+    "sched_preempt_blocked": x_sched_preempt_blocked,
 }
 
 
